@@ -237,7 +237,7 @@ pub fn run(ctx: &Ctx) {
      items (3 samples, 4 near misses, 1 unrelated), each encoded three times (canonical + two random choices of head \
      width, indefinite length, string chunking, float width). Oracle: vcore::sem over the CBOR data model; all three \
      encodings must get the oracle's verdict. Non-trivial: the oracle entered an array or map and touched >= 2 construct \
-     kinds, or a non-canonical encoding was used on a composite item; distinct = distinct (schema text, second encoding). Sub-check small_scope: the exhaustive small grammar of C01 plus integer keys, a uint-keyed table and a byte string x 39 data items, each in three encodings.",
+     kinds, or a non-canonical encoding was used on a composite item; distinct = distinct (schema text, second encoding). Sub-check small_scope: the exhaustive small grammar of C01 plus integer keys, a uint-keyed table and a byte string x 39 data items, each in three encodings. Sub-check long_strings: literal equality and .size on text / byte strings of 4095..16385 bytes (beyond the decoder's 4096-byte read step) in arrays and maps x exact values, one-character changes near the end, one byte longer / shorter, each in three encodings.",
   );
   ctx.assume("float16/32/64 names are not generated: they are defined by the encoding, which the property says must not matter");
   ctx.assume("maps with duplicate keys are not asserted here (C10 covers them)");
@@ -290,9 +290,80 @@ pub fn run(ctx: &Ctx) {
     let mut t = Tape::new(&words);
     eval_cbor(ctx, "small_scope", s, text, d, "sample", &mut t, st, &excl)
   });
+  // strings longer than the decoder's read buffer (4096 bytes): literal equality and .size on text / byte strings of
+  // 4095..16385 bytes inside arrays and maps, exact values and near misses (one character changed beyond offset 4096,
+  // one byte longer / shorter)
+  let long = long_string_pairs();
+  vcore::sweep(ctx, "long_strings", &long, |(i, s, text, d), st| {
+    let words: Vec<u32> = (0..64u32).map(|k| (*i as u32).wrapping_mul(2654435761).rotate_left(k) ^ k.wrapping_mul(40503)).collect();
+    let mut t = Tape::new(&words);
+    eval_cbor(ctx, "long_strings", s, text, d, "sample", &mut t, st, &excl)
+  });
   if survey_on() {
     survey_dump(ctx);
   }
+}
+
+fn long_string_pairs() -> Vec<(usize, vcore::cmodel::Schema, String, CVal)> {
+  use vcore::cmodel::*;
+  let name = |n: &str| Ty2::Name { name: n.to_string(), args: vec![] };
+  let ent = |occ: Option<Occ>, key: Option<Key>, t1: Ty1| Ent { occ, kind: EntKind::Val { key, ty: Ty(vec![t1]) } };
+  let size = |target: &str, n: usize| Ty1 { t2: name(target), op: Some((Op::Ctl("size".into()), Ty2::Lit(Lit::int(n as i128)))) };
+  let root = |t2: Ty2| Schema(vec![RuleM { name: "root".into(), params: vec![], alt: false, body: Body::Ty(Ty(vec![Ty1::plain(t2)])) }]);
+  let mut v = vec![];
+  for len in [4095usize, 4096, 4097, 8191, 8193, 12289, 16385] {
+    let mk_text = |n: usize, fill: char| -> String {
+      let mut t = "a".repeat(n % 2);
+      while t.len() + 2 <= n {
+        t.push(fill);
+      }
+      while t.len() < n {
+        t.push('z');
+      }
+      t
+    };
+    let exact = mk_text(len, '\u{e9}');
+    // the same text with one character changed close to the end
+    let mut changed: Vec<char> = exact.chars().collect();
+    let k = changed.len() - 3;
+    changed[k] = '\u{e8}';
+    let changed: String = changed.into_iter().collect();
+    let longer = format!("{}z", exact);
+    let shorter = mk_text(len - 1, '\u{e9}');
+    let bytes: Vec<u8> = (0..len).map(|i| (i * 7 + i / 4096) as u8).collect();
+    let mut bytes_longer = bytes.clone();
+    bytes_longer.push(1);
+    let schemas = vec![
+      root(Ty2::Arr(Grp(vec![vec![ent(Some(Occ::Plus), None, Ty1::plain(Ty2::Lit(Lit::text(&exact))))]]))),
+      root(Ty2::Arr(Grp(vec![vec![ent(Some(Occ::Star), None, size("tstr", len))]]))),
+      root(Ty2::Arr(Grp(vec![vec![ent(Some(Occ::Star), None, size("bstr", len))]]))),
+      root(Ty2::Map(Grp(vec![vec![
+        ent(None, Some(Key::Bare("k".into())), Ty1::plain(Ty2::Lit(Lit::text(&exact)))),
+        ent(Some(Occ::Opt), Some(Key::Bare("j".into())), size("tstr", len)),
+      ]]))),
+    ];
+    let txt = |s: &str| CVal::Text(s.to_string());
+    let docs = vec![
+      CVal::Array(vec![txt(&exact)]),
+      CVal::Array(vec![txt(&exact), txt(&exact)]),
+      CVal::Array(vec![txt(&changed)]),
+      CVal::Array(vec![txt(&longer)]),
+      CVal::Array(vec![txt(&shorter)]),
+      CVal::Array(vec![CVal::Bytes(bytes.clone())]),
+      CVal::Array(vec![CVal::Bytes(bytes_longer)]),
+      CVal::Map(vec![(txt("k"), txt(&exact))]),
+      CVal::Map(vec![(txt("k"), txt(&changed))]),
+      CVal::Map(vec![(txt("k"), txt(&exact)), (txt("j"), txt(&changed))]),
+      CVal::Map(vec![(txt("k"), txt(&exact)), (txt("j"), txt(&longer))]),
+    ];
+    for s in &schemas {
+      let text = render(s);
+      for d in &docs {
+        v.push((v.len(), s.clone(), text.clone(), d.clone()));
+      }
+    }
+  }
+  v
 }
 
 pub fn has_dup_keys(v: &CVal) -> bool {
